@@ -50,6 +50,12 @@ func init() {
 			`<% let f = fn(x) { return x + 1 } %><%= f(1) %><%= f(2) %>`,
 			`<% contentFor("c") { %>[<%= n %>]<% } %><%= contentOf("c") %><%= contentOf("c", {n: 9}) %>`,
 			`<%= partial("nested") %><%= partial("p.html", {who: "a", layout: "lay2"}) %>`,
+			// a helper that writes into the options map it was given, called with the options left out
+			// (they are fresh for every call), with literal options, and with a variable holding them
+			`<%= optlen() %>|<%= optlen() %>|<%= optlen({a: 1}) %>`, `<% let o = {} %><%= optlen(o) %><%= optlen(o) %>|<%= optlen() %>`,
+			`<%= for (i) in [1, 2] { %><%= optlen() %><% } %>`,
+			// array literals changed in place and by append
+			`<% let a = [1, 2, 3] %><% a[0] = a[0] + 1 %><% a = a + 4 %><%= a[0] %>,<%= a[3] %>,<%= len(a) %>`, `<%= for (i) in [1, 2] { %><% let b = [1, 2, 3] %><% b[2] = b[2] + i %><%= b[2] %><% } %>`,
 			// partials that include themselves (one text executing while another execution of the same text is pending)
 			`<%= partial("tree", {n: 3}) %>`, `<%= partial("tree", {n: 2}) %>|<%= partial("tree", {n: 1}) %>`, `<%= partial("ping", {n: 4}) %>`,
 		)
@@ -93,7 +99,7 @@ func init() {
 			return maskPtrs(res)
 		}
 		for ti, src := range tmpls {
-			c := RCase{Tmpl: src, Binds: stdBinds(), Parts: stdParts}
+			c := RCase{Tmpl: src, Binds: append(stdBinds(), Bind{"optlen", vGo(111)}), Parts: stdParts}
 			o := e.addRenderCase("model", c)
 			if o.Class == "PARSEERR" || o.Class == "PANIC" || o.Class == "HANG" {
 				continue
